@@ -6,77 +6,6 @@ From Coq Require Import List Arith Bool PeanoNat Lia Permutation.
 Import ListNotations.
 Require Import Fggs.Model.Conj Fggs.Proofs.ConjBase Fggs.Proofs.ConjSort Fggs.Proofs.ConjRule.
 
-Lemma find_edge_some : forall i l e, find_edge i l = Some e -> In e l /\ e_id e = i.
-Proof.
-  unfold find_edge. intros i l e H. apply find_some in H. destruct H as [H1 H2].
-  apply Nat.eqb_eq in H2. auto.
-Qed.
-
-Lemma find_edge_unique : forall l e, NoDup (map e_id l) -> In e l -> find_edge (e_id e) l = Some e.
-Proof.
-  unfold find_edge. induction l as [|x l IH]; simpl; intros e N He; [contradiction|].
-  inversion N as [|? ? N1 N2]; subst. destruct He as [->|He].
-  - rewrite Nat.eqb_refl. reflexivity.
-  - destruct (Nat.eqb (e_id x) (e_id e)) eqn:E.
-    + apply Nat.eqb_eq in E. exfalso. apply N1. rewrite E. apply in_map. exact He.
-    + apply IH; assumption.
-Qed.
-
-Theorem conj_rule_ok_sound : forall r1 r2 m r,
-  wf_rule r1 -> wf_rule r2 -> conj_rule_ok r1 r2 m r = true -> conj_rule_spec r1 r2 m r.
-Proof.
-  intros r1 r2 m r W1 W2 H. unfold conj_rule_ok in H. repeat rewrite andb_true_iff in H.
-  destruct H as [[[[[[[[[[A1 A2] A3] A4] A5] A6] A7] A8] A9] A10] A11].
-  apply wf_rule_b_spec in A11.
-  assert (N : NoDup (map e_id (nt_edges (r_rhs r)))) by (apply NoDup_map_filter; apply A11).
-  assert (N1 : NoDup (map e_id (nt_edges (r_rhs r1)))) by (apply NoDup_map_filter; apply W1).
-  assert (N2 : NoDup (map e_id (nt_edges (r_rhs r2)))) by (apply NoDup_map_filter; apply W2).
-  pose proof (proj1 (set_eqb_spec node_eqb node_eqb_eq _ _) A2) as S2.
-  pose proof (proj1 (set_eqb_spec node_eqb node_eqb_eq _ _) A3) as S3.
-  apply nodes_eqb_eq in A4. apply nats_eqb_eq in A5.
-  apply Nat.eqb_eq in A6. apply Nat.eqb_eq in A7.
-  rewrite forallb_forall in A8.
-  pose proof (proj1 (set_eqb_spec edge_eqb edge_eqb_eq _ _) A9) as S9.
-  (* what the per-edge check says *)
-  assert (E8 : forall e, In e (nt_edges (r_rhs r)) ->
-     exists e1 e2, In e1 (nt_edges (r_rhs r1)) /\ In e2 (nt_edges (r_rhs r2)) /\
-       e_id e1 = e_id e /\ e_id e2 = e_id e /\ e_att e = e_att e1 /\
-       map n_id (e_att e) = map n_id (e_att e2) /\
-       nt_get m (e_lab e1, e_lab e2) = Some (e_lab e)).
-  { intros e He. specialize (A8 e He).
-    destruct (find_edge (e_id e) (nt_edges (r_rhs r1))) as [e1|] eqn:F1; [|discriminate].
-    destruct (find_edge (e_id e) (nt_edges (r_rhs r2))) as [e2|] eqn:F2; [|discriminate].
-    apply find_edge_some in F1. apply find_edge_some in F2. destruct F1 as [F1 I1]. destruct F2 as [F2 I2].
-    repeat rewrite andb_true_iff in A8. destruct A8 as [[B1 B2] B3].
-    apply nodes_eqb_eq in B1. apply nats_eqb_eq in B2.
-    destruct (nt_get m (e_lab e1, e_lab e2)) as [l|] eqn:G; [|discriminate]. apply elabel_eqb_eq in B3.
-    exists e1, e2. rewrite B3. repeat split; assumption. }
-  unfold conj_rule_spec.
-  split. { destruct (nt_get m (r_lhs r1, r_lhs r2)) as [l|]; [|discriminate].
-           apply elabel_eqb_eq in A1. rewrite A1. reflexivity. }
-  split; [exact S2|]. split; [exact S3|]. split; [exact A4|]. split; [exact A5|].
-  split; [|split; [exact E8|split; [|exact A11]]].
-  - intros e1 e2 H1 H2 Eid.
-    assert (I : incl (map e_id (nt_edges (r_rhs r1))) (map e_id (nt_edges (r_rhs r)))).
-    { apply NoDup_length_incl; [exact N | rewrite !map_length; lia |].
-      intros i Hi. apply in_map_iff in Hi. destruct Hi as [e [<- He]].
-      destruct (E8 e He) as [e1' [_ [He1' [_ [Ei _]]]]]. rewrite <- Ei. apply in_map. exact He1'. }
-    assert (Hi : In (e_id e1) (map e_id (nt_edges (r_rhs r)))) by (apply I; apply in_map; exact H1).
-    apply in_map_iff in Hi. destruct Hi as [e [Ei He]].
-    destruct (E8 e He) as [e1' [e2' [He1' [He2' [Ei1 [Ei2 [Ea [_ G]]]]]]]].
-    assert (X1 : e1' = e1).
-    { pose proof (find_edge_unique _ _ N1 He1') as Y1. pose proof (find_edge_unique _ _ N1 H1) as Y2.
-      rewrite Ei1, Ei in Y1. rewrite Y1 in Y2. injection Y2. auto. }
-    assert (X2 : e2' = e2).
-    { pose proof (find_edge_unique _ _ N2 He2') as Y1. pose proof (find_edge_unique _ _ N2 H2) as Y2.
-      rewrite Ei2, Ei, Eid in Y1. rewrite Y1 in Y2. injection Y2. auto. }
-    subst e1' e2'. exists (e_lab e). split; [exact G|].
-    replace {| e_id := e_id e1; e_lab := e_lab e; e_att := e_att e1 |} with e; [exact He|].
-    destruct e as [i l a]. simpl in *. subst. reflexivity.
-  - intros e. rewrite (S9 e). apply in_app_iff.
-Qed.
-
-(** * the grammar-level oracle *)
 Lemma remove_first_some {A} (p : A -> bool) : forall l l',
   remove_first p l = Some l' -> exists x, p x = true /\ Permutation l (x :: l').
 Proof.
@@ -88,18 +17,63 @@ Proof.
     eapply Permutation_trans; [apply perm_skip; exact P | apply perm_swap].
 Qed.
 
-Lemma match_rules_sound : forall m rs todo,
-  match_rules m todo rs = true ->
-  exists ps, Permutation ps todo /\
-             Forall2 (fun p r => conj_rule_ok (fst (snd p)) (snd (snd p)) m r = true) ps rs.
+(** the greedy matcher finds a one-to-one matching of [todo] with [xs] *)
+Lemma match_list_sound {A B} (p : A -> B -> bool) : forall xs todo,
+  match_list p todo xs = true ->
+  exists ps, Permutation ps todo /\ Forall2 (fun a x => p a x = true) ps xs.
 Proof.
-  induction rs as [|r rs IH]; simpl; intros todo H.
+  induction xs as [|x xs IH]; simpl; intros todo H.
   - destruct todo; [|discriminate]. exists []. split; constructor.
-  - destruct (remove_first _ todo) as [todo'|] eqn:R; [|discriminate].
-    apply remove_first_some in R. destruct R as [p [Pp P]].
-    destruct (IH _ H) as [ps [P' F]]. exists (p :: ps). split.
+  - destruct (remove_first (fun a => p a x) todo) as [todo'|] eqn:R; [|discriminate].
+    apply remove_first_some in R. destruct R as [a [Pa P]].
+    destruct (IH _ H) as [ps [P' F]]. exists (a :: ps). split.
     + eapply Permutation_trans; [apply perm_skip; exact P' | apply Permutation_sym; exact P].
     + constructor; assumption.
+Qed.
+
+Lemma nt_edge_ok_sound : forall m p e, nt_edge_ok m p e = true -> nt_edge_rel m p e.
+Proof.
+  intros m p e H. unfold nt_edge_ok in H. repeat rewrite andb_true_iff in H.
+  destruct H as [[A B] C]. unfold nt_edge_rel.
+  destruct (nt_get m (e_lab (fst p), e_lab (snd p))) as [l|]; [|discriminate].
+  apply elabel_eqb_eq in A. apply nodes_eqb_eq in B. subst l.
+  split; [reflexivity|]. split; [exact B|].
+  destruct (is_int_id (e_id (fst p))); [exact C | apply Nat.eqb_eq; exact C].
+Qed.
+
+Lemma t_edge_ok_sound : forall x e, t_edge_ok x e = true -> t_edge_rel x e.
+Proof.
+  intros [b x] e H. unfold t_edge_ok in H. unfold t_edge_rel. simpl in *. destruct b.
+  - apply edge_eqb_eq. exact H.
+  - repeat rewrite andb_true_iff in H. destruct H as [[A B] C].
+    apply elabel_eqb_eq in A. apply nodes_eqb_eq in B. unfold t2_rel.
+    split; [exact A|]. split; [exact B|]. apply orb_true_iff in C.
+    destruct C as [C|C]; [left; apply Nat.eqb_eq; exact C | right; exact C].
+Qed.
+
+Lemma Forall2_impl {A B} (P Q : A -> B -> Prop) : (forall a b, P a b -> Q a b) ->
+  forall l l', Forall2 P l l' -> Forall2 Q l l'.
+Proof. intros H. induction 1; constructor; auto. Qed.
+
+Theorem conj_rule_ok_sound : forall r1 r2 m r,
+  conj_rule_ok r1 r2 m r = true -> conj_rule_spec r1 r2 m r.
+Proof.
+  intros r1 r2 m r H. unfold conj_rule_ok in H. repeat rewrite andb_true_iff in H.
+  destruct H as [[[[[[[A1 A2] A3] A4] A5] A6] A7] A8].
+  apply wf_rule_b_spec in A8.
+  pose proof (proj1 (set_eqb_spec node_eqb node_eqb_eq _ _) A2) as S2.
+  pose proof (proj1 (set_eqb_spec node_eqb node_eqb_eq _ _) A3) as S3.
+  apply nodes_eqb_eq in A4. apply nats_eqb_eq in A5.
+  apply match_list_sound in A6. apply match_list_sound in A7.
+  unfold conj_rule_spec.
+  split. { destruct (nt_get m (r_lhs r1, r_lhs r2)) as [l|]; [|discriminate].
+           apply elabel_eqb_eq in A1. rewrite A1. reflexivity. }
+  split; [exact S2|]. split; [exact S3|]. split; [exact A4|]. split; [exact A5|].
+  split; [|split; [|exact A8]].
+  - destruct A6 as [ps [P F]]. exists ps. split; [exact P|].
+    eapply Forall2_impl; [|exact F]. intros a b. apply nt_edge_ok_sound.
+  - destruct A7 as [ts [P F]]. exists ts. split; [exact P|].
+    eapply Forall2_impl; [|exact F]. intros a b. apply t_edge_ok_sound.
 Qed.
 
 (** the output grammar consists, one for one, of conjunctions of the conjoinable pairs *)
@@ -108,29 +82,14 @@ Definition conj_hrg_spec (h1 h2 : hrg) (m : ntmap) (g : hrg) : Prop :=
   exists ps, Permutation ps (cpairs h1 h2) /\
              Forall2 (fun p r => conj_rule_spec (fst (snd p)) (snd (snd p)) m r) ps (all_rules g).
 
-Lemma cpairs_rules : forall h1 h2 p, In p (cpairs h1 h2) ->
-  In (fst (snd p)) (all_rules h1) /\ In (snd (snd p)) (all_rules h2).
-Proof.
-  intros h1 h2 [[i j] [r1 r2]] H. unfold cpairs in H. apply in_flat_map in H.
-  destruct H as [[i' r1'] [H1 H]]. apply in_flat_map in H. destruct H as [[j' r2'] [H2 H]].
-  simpl in H. destruct (conjoinable_model r1' r2'); [|contradiction]. destruct H as [H|[]].
-  injection H as <- <- <- <-. simpl.
-  apply indexed_nth in H1. apply indexed_nth in H2.
-  split; eapply nth_error_In; eauto.
-Qed.
-
 Theorem conj_hrg_ok_sound : forall h1 h2 m g,
-  (forall r, In r (all_rules h1) -> wf_rule r) -> (forall r, In r (all_rules h2) -> wf_rule r) ->
   conj_hrg_ok h1 h2 m g = true -> conj_hrg_spec h1 h2 m g.
 Proof.
-  intros h1 h2 m g W1 W2 H. unfold conj_hrg_ok in H. repeat rewrite andb_true_iff in H.
+  intros h1 h2 m g H. unfold conj_hrg_ok in H. repeat rewrite andb_true_iff in H.
   destruct H as [[A1 A2] _]. unfold conj_hrg_spec. split.
   - destruct (nt_get m (h_start h1, h_start h2)) as [s|]; [|discriminate].
     apply elabel_eqb_eq in A1. rewrite A1. reflexivity.
-  - apply match_rules_sound in A2. destruct A2 as [ps [P F]]. exists ps. split; [exact P|].
-    assert (G : forall p, In p ps -> wf_rule (fst (snd p)) /\ wf_rule (snd (snd p))).
-    { intros p Hp. apply (Permutation_in _ P) in Hp. apply cpairs_rules in Hp. destruct Hp. auto. }
-    clear P. induction F as [|p r ps rs Hpr F IH]; constructor.
-    + destruct (G p (or_introl eq_refl)). apply conj_rule_ok_sound; assumption.
-    + apply IH. intros q Hq. apply G. right. exact Hq.
+  - unfold match_rules in A2. apply match_list_sound in A2. destruct A2 as [ps [P F]].
+    exists ps. split; [exact P|]. eapply Forall2_impl; [|exact F].
+    intros a b. apply conj_rule_ok_sound.
 Qed.
